@@ -510,6 +510,8 @@ def needs_single(item):
 def cases(tier, seed):
     for c in _unicode_symbol_cases():
         yield c
+    for c in _quote_follow_cases():
+        yield c
     batch = []
     names = set()
     weight = [0]
@@ -1151,7 +1153,100 @@ def run_unicode_sym(case, ctx):
                        'expected_argv': want_argv} if name == 'größe' and lname == 'L2' else None}
 
 
+# ---------------------------------------------------------------------------------------------
+# quote characters inside here-documents / :> text that are followed by MORE tokens of the same instruction, and quoted
+# words that look like options (a quoted word is a STRING, never an option)
+# ---------------------------------------------------------------------------------------------
+QUOTE_WORDS = ["don't panic", "it's \"x", '"open', "a 'b", "''' x", 'say "hi']
+OPTION_WORDS = ['-existing-file', '-existing-dir', '-existing-path', '-python', '-rel-act', '-contents-of', '-stdout-from',
+                '-stderr-from', '-transformed-by', '-stdin', '-ignore-exit-code', '-rel-home']
+
+
+def _quote_follow_cases():
+    for i, w in enumerate(QUOTE_WORDS):
+        yield {'kind': 'quote-follow', 'word': w, 'n': i}
+    for i in range(0, len(OPTION_WORDS), 4):
+        for q in ("'", '"'):
+            yield {'kind': 'quoted-option', 'words': OPTION_WORDS[i:i + 4], 'q': q, 'n': i}
+
+
+def run_quote_follow(case, ctx):
+    from vf import probe
+    import os
+    ses = ctx.get_session()
+    d = ses.new_case_dir({'data.txt': 'data'})
+    rec = os.path.join(d, 'rec.jsonl')
+    want_files = {}
+    want_argv = None
+    if case['kind'] == 'quote-follow':
+        w = case['word']
+        lines = ['[setup]',
+                 'file f1 = <<EOF', w, 'EOF', ' -transformed-by identity',
+                 'dir d = {', '  file a = <<EOF', w, 'EOF', '  file b = :> ' + w, '  file c', '}',
+                 'file f4 = :> ' + w,
+                 'file f5 = <<EOF', w, 'second line', 'EOF',
+                 'def string AFTER = after',
+                 'file f6 = @[AFTER]@',
+                 '[act]', '$ true',
+                 '[assert]',
+                 'contents f1 : ( equals <<EOF', w, 'EOF', ' )',
+                 'contents f5 : ( num-lines == 2 && equals <<EOF', w, 'second line', 'EOF', ' )']
+        want_files = {'f1': w + '\n', 'd/a': w + '\n', 'd/b': w, 'd/c': '', 'f4': w, 'f5': w + '\nsecond line\n',
+                      'f6': 'after'}
+    else:
+        q = case['q']
+        ws = case['words']
+        lines = ['[setup]']
+        for k, ow in enumerate(ws):
+            lines.append('file o%d = %s%s%s' % (k, q, ow, q))
+            want_files['o%d' % k] = ow
+        lines.append('%% %s %s id=q %s data.txt last' % (probe.PROBE, rec, ' '.join(q + ow + q for ow in ws)))
+        lines.append('def list OL = %s' % ' '.join(q + ow + q for ow in ws))
+        lines.append('%% %s %s id=l @[OL]@' % (probe.PROBE, rec))
+        lines += ['[act]', '$ true']
+        want_argv = [ws + ['data.txt', 'last'], list(ws)]
+    text = '\n'.join(lines) + '\n'
+    with open(os.path.join(d, 't.case'), 'w', encoding='utf-8') as f:
+        f.write(text)
+    r = ses.run(['--keep', os.path.join(d, 't.case')], cwd=d, mode='keep')
+    viol, inconc = [], []
+    nev = 0
+    label = 'quote followed by more tokens (%r)' % case.get('word') if case['kind'] == 'quote-follow' else \
+        'quoted option-like words %r' % (case['words'],)
+    if r.timed_out:
+        inconc.append('watchdog')
+    elif r.exc is not None or r.rc != 0:
+        viol.append({'what': 'C09 %s: the case does not PASS: %s' % (label, (r.err or str(r.exc))[:300]),
+                     'detail': {'case_text': text}})
+    else:
+        sds = r.out.strip()
+        for fn, want in want_files.items():
+            nev += 1
+            ctx.count('c09.quote_follow_observations')
+            try:
+                with open(os.path.join(sds, 'act', fn), encoding='utf-8') as f:
+                    got = f.read()
+            except OSError as ex:
+                got = '<%s>' % ex
+            if got != want:
+                viol.append({'what': 'C09 %s: file %s holds %r, the syntax denotes %r' % (label, fn, got, want),
+                             'detail': {'case_text': text}})
+        if want_argv is not None:
+            recs = [x['argv'] for x in probe.read_records(rec)]
+            nev += 1
+            ctx.count('c09.quote_follow_observations')
+            if recs != want_argv:
+                viol.append({'what': 'C09 %s as program arguments / list elements: argv %r, the syntax denotes %r' %
+                                     (label, recs, want_argv), 'detail': {'case_text': text}})
+    ses.clean_tmp()
+    ses.drop(d)
+    return {'classes': [(case['kind'], case['n'], case.get('q', ''))], 'viol': viol, 'inconclusive': inconc,
+            'evaluations': max(nev, 1)}
+
+
 def run_case(case, ctx):
+    if case.get('kind') in ('quote-follow', 'quoted-option'):
+        return run_quote_follow(case, ctx)
     if case.get('kind') == 'unicode-sym':
         r = run_unicode_sym(case, ctx)
         if r.get('sample') is None:
